@@ -33,9 +33,12 @@ func (e *env) replayConc(bh Behaviour, r *rand.Rand) bool {
 	if g < 2 {
 		g = 2
 	}
-	rounds := 24
+	rounds := 80
 	if e.cfg.slow {
 		rounds = 4
+	}
+	if e.concRounds > 0 { // race-detector runs: detection does not depend on timing, a few rounds suffice
+		rounds = e.concRounds
 	}
 	scheme := e.cfg.scheme
 	for round := 0; round < rounds; round++ {
